@@ -92,7 +92,7 @@ def document(children, cp_t, target, target_t, nested, ancestors):
     defs += f'<clipPath id="c1"{cp_attrs}>{kids}</clipPath>'
     tpl, tdefs = TARGETS[target]
     defs += tdefs
-    body = tpl.format(c=' clip-path="url(#c1)"', t=f' transform="{T3}"' if target_t else "")
+    body = tpl.format(c=' clip-path="url(#c1)"', t=f' transform="{T3 if target_t is True else target_t}"' if target_t else "")
     if ancestors >= 1:
         defs += '<clipPath id="ca"><circle cx="48" cy="52" r="40"/></clipPath>'
         body = f'<g clip-path="url(#ca)" transform="translate(3,2)">{body}</g>'
@@ -123,6 +123,10 @@ def all_cases(tier):
     for (s, r) in [(s, r) for s in ("rect", "star", "nested") for r in RULES]:
         for nested, cp_t, target, anc in itertools.product(("star", "star-eo", "ring-childeo"), (False, True), ("shape", "group") if tier == "quick" else TARGETS, (0, 1)):
             yield ([(s, r, False)], cp_t, target, False, nested, anc)
+    # targets whose own transform is close to the identity (every entry within 0.1 of it)
+    for s_, r in (("rect", "nz"), ("star", "eo"), ("circle", "nz")):
+        for tt, target, cp_t, anc in itertools.product(("scale(1.06)", "rotate(4)", "matrix(1.03 .02 -.04 .97 .05 -.08)"), ("shape", "group", "use"), (False, True), (0, 1)):
+            yield ([(s_, r, False)], cp_t, target, tt, False, anc)
     child1 = [(s, r) for s in shapes for r in RULES]
     # k = 1: full product
     for (s, r), tchild, cp_t, target, target_t, nested, anc in itertools.product(child1, (False, True), (False, True), TARGETS, (False, True), (False, True), (0, 1, 2)):
